@@ -58,6 +58,10 @@ def make_target(lab):
         # the peer address the method can read is that of its own connection (or unknown), never somebody else's
         if conn is not None and cc.client_sock_addr is not None and tuple(cc.client_sock_addr) != tuple(getattr(conn.sock, "raddr", cc.client_sock_addr)):
             c = -1
+        sk = getattr(conn, "sock", None)
+        if conn is not None and cc.client_sock_addr is None and sk is not None \
+                and not (getattr(sk, "closed", False) or getattr(sk, "reset", False) or getattr(sk, "reset_after_drain", False)):
+            c = -1          # "unknown" is what a connection that is gone gives; this one is alive
         corr = cc.correlation_id.int if cc.correlation_id is not None and cc.correlation_id.int < 100000 else -1
         lab.log.append({"e": "Exec", "tok": tok, "c": c, "seq": cc.seq, "reqann": rtok, "corr": corr, "ser": cc.serializer_id,
                         "oneway": bool(cc.msg_flags & protocol.FLAGS_ONEWAY)})
